@@ -45,7 +45,7 @@ PROPS["C03"] = dict(
         ("src/bigint.rs", "c03/bigint.rs"), ("src/biguint/division.rs", "c03/biguint_division.rs"), ("src/biguint/shift.rs", "c07/biguint_shift.rs"),
     ],
     kani=[dict(filter_q="c03_q_", filter_t=["c03_q_", "c03_t_"], jobs=14, timeout_q=240, timeout_t=900)],
-    engines=[dict(module="asmsym", func="run_div")],
+    engines=[dict(module="asmsym", func="run_div"), dict(module="mirsmt", func="run_div_guard")],
     functions=["BigInt::{div_rem,/,%,div_floor,mod_floor,div_mod_floor,div_ceil,div_euclid,rem_euclid,div_rem_euclid,checked_*}",
                "biguint::division::{div_rem, div_rem_ref} (pre-checks, normalisation shift, de-normalisation)", "div_rem_digit, rem_digit", "div_wide (asm binding + fault condition)"],
     bounds_quick="sign conventions: 10 APIs x 4 sign pairs x shapes (|a|,|b|,|q|,|r|) in {(1,1,1,1),(1,1,1,0),(1,1,0,1),(2,1,2,1)} digits + zero dividend; zero-divisor set on 0..2-digit dividends",
@@ -240,7 +240,7 @@ PROPS["C15"] = dict(
                filter_t=["c01_q_add2_", "c01_t_add2_", "c01_q_sub2_ge", "c01_t_sub2_ge", "c01_q_addassign_", "c01_t_addassign_", "c01_q_subassign_", "c01_q_subrefval_", "c03_q_digit_", "c03_t_digit_", "c03_q_single", "c15_q_", "c15_t_"],
                jobs=14, timeout_q=240, timeout_t=900),
           dict(filter_q=["c18_q_gen_biguint"], filter_t=["c18_q_gen_biguint", "c18_t_gen_biguint"], jobs=14, timeout_q=240, timeout_t=900, features="rand", tgt="rand")],
-    engines=[dict(module="asmsym", func="run")],
+    engines=[dict(module="asmsym", func="run"), dict(module="mirsmt", func="run_div_guard")],
     functions=["schoolbook_add_assign_x86_64 / schoolbook_sub_assign_x86_64 (asm text: address sets, no store to rhs)", "div_wide (asm binding, #DE condition) and its callers",
                "__add2 / sub2 / AddAssign / SubAssign caller-side slicing under CBMC pointer checks (exact-fit allocations)", "to_str_radix_reversed -> String::from_utf8_unchecked", "gen_biguint (u64 buffer viewed as u32 words)"],
     bounds_quick="asm loops: inductive address-set obligation for any block count + bounded runs of 1..3 blocks (6 thorough); callers: the C01 kernel/Vec shapes up to 11 digits with CBMC's pointer, bounds and "
